@@ -4,14 +4,17 @@ import os
 
 VERIF = os.path.dirname(os.path.dirname(os.path.abspath(__file__)))
 
-CLAIMED = {
-    "C18": {
-        "text": "Lean 4 theorems over a model of afkak/partitioner.py: the Python murmur2 equals the Java client's murmur2 on every key (C18_murmur_java), the hashed choice is the element the Java client would choose and is in range (C18_java_colocated, C18_in_range), round-robin fairness for every window of k*n selections from every reachable state and after every list change (C18_rr_fair, C18_rr_reachable_wf, C18_rr_restart). The model is tied to the code by differential execution of the real functions and the compiled model on generated keys/lists/histories, and the Lean monitor predicates are evaluated on the implementation's outputs.",
-        "design_ref": "DESIGN.md §3 C18",
-        "note": "Trusted: Lean kernel; axioms propext/Classical.choice/Quot.sound; the Java murmur2 transcription (tested against the Java client's UtilsTest vectors by decide +kernel); the correspondence harness; sorted()/itertools.cycle modelled as insertion sort/rotating list. The C murmurhash2 extension is not installed and not exercised.",
-        "technique": "Lean 4 proof (induction over 4-byte chunks; permutation/rotation argument) + model/implementation correspondence check",
-    },
-}
+def load_claims():
+    """harness/claims/<ID>.json: {text, design_ref, note, technique} for every property that has a check."""
+    d = os.path.join(VERIF, "harness", "claims")
+    out = {}
+    for fn in sorted(os.listdir(d)):
+        if fn.endswith(".json"):
+            out[fn[:-5]] = json.load(open(os.path.join(d, fn)))
+    return out
+
+
+CLAIMED = load_claims()
 
 NOT_APPLICABLE = {}
 
